@@ -7,6 +7,7 @@ from h5 import lean, wire
 
 ID = "C14"
 PROPS_MODULE = "H5.Props.C14"
+EXTRA_PROPS_MODULES = ["H5.Props.C14b"]
 GEN_MODULES = ["Entities", "StdEntities", "Constants"]
 CORRESPONDENCE_OPS = ["numcharref", "tok(named references)"]
 SOURCES = ["html5lib/_tokenizer.py", "html5lib/constants.py", "html5lib/_trie/py.py", "html5lib/_trie/_base.py",
